@@ -3,7 +3,7 @@
 # Confirms independently: patch applies to /repo HEAD, builds, demo FAILS with the patch and PASSES without, affected packages' tests pass.
 set -u
 SEED=$1; NAME=$(basename "$SEED")
-export PATH=/root/go/pkg/mod/golang.org/toolchain@v0.0.1-go1.24.4.linux-amd64/bin:$PATH GOFLAGS=-mod=mod GOPROXY=off GOSUMDB=off GOTOOLCHAIN=local
+export PATH=/root/go/pkg/mod/golang.org/toolchain@v0.0.1-go1.24.4.linux-amd64/bin:$PATH GOFLAGS="-mod=mod ${SEED_GOFLAGS:-}" GOPROXY=off GOSUMDB=off GOTOOLCHAIN=local
 WT=/tmp/wt_cf_${NAME}_$$
 git -C /repo worktree add --detach "$WT" HEAD >/dev/null 2>&1 || { echo "{\"seed\":\"$NAME\",\"error\":\"worktree\"}"; exit 2; }
 cd "$WT"
